@@ -238,53 +238,154 @@ func recvObj(c *Ctx, fd *ast.FuncDecl) types.Object {
 }
 
 func ruleSibling6(c *Ctx) {
-	c.R.Rule("SIBLING-6", 3, "thunk calls restore the VM: every field assigned by doCall0 is saved by save() and restored by reset(); call0 saves before and resets after doCall0")
-	do, sv, rs, c0 := c.FuncDecl("vm", "VM.doCall0"), c.FuncDecl("vm", "VM.save"), c.FuncDecl("vm", "VM.reset"), c.FuncDecl("vm", "VM.call0")
-	if do == nil || sv == nil || rs == nil || c0 == nil {
-		c.R.Anchor("vm.VM.doCall0/save/reset/call0")
+	c.R.Rule("SIBLING-6", 3, "thunk calls restore the VM: in call0, every VM field that is overwritten before the nested interpreter run (in call0 itself or in the method that starts the run) was first copied into a snapshot taken from the receiver, and is written back from that same snapshot after the run; the roles (snapshot taker, runner, restorer) are recognised by what the methods do, not by their names")
+	c0 := c.FuncDecl("vm", "VM.call0")
+	if c0 == nil {
+		c.R.Anchor("vm.VM.call0")
 		return
 	}
-	assigned := c.fieldsAssigned(do.Body, recvObj(c, do))
-	restored := c.fieldsAssigned(rs.Body, recvObj(c, rs))
-	saved := map[string]bool{}
-	ast.Inspect(sv.Body, func(x ast.Node) bool {
-		if kv, ok := x.(*ast.KeyValueExpr); ok {
-			if id, ok := kv.Key.(*ast.Ident); ok {
-				if se, ok := kv.Value.(*ast.SelectorExpr); ok && se.Sel.Name == id.Name && c.objOf(se.X) == recvObj(c, sv) {
-					saved[id.Name] = true
+	recv := recvObj(c, c0)
+	vmMethod := func(call *ast.CallExpr) *ast.FuncDecl {
+		f, ok := c.calleeObj(call).(*types.Func)
+		if !ok || f.Pkg() == nil || short(f.Pkg().Path()) != "vm" {
+			return nil
+		}
+		se, ok := call.Fun.(*ast.SelectorExpr)
+		if !ok || c.objOf(se.X) != recv {
+			return nil
+		}
+		return c.declOf(f)
+	}
+	runsInterp := func(body ast.Node, r types.Object) bool {
+		found := false
+		inspectNoLit(body, func(x ast.Node) bool {
+			if ce, ok := x.(*ast.CallExpr); ok && c.calleeObj(ce) == nil {
+				if se, ok := ce.Fun.(*ast.SelectorExpr); ok && se.Sel.Name == "interp" && c.objOf(se.X) == r {
+					found = true
+				}
+			}
+			return true
+		})
+		return found
+	}
+	// snapshot: a method whose result is a composite literal built from receiver fields  (saved key -> receiver field)
+	snapshotOf := func(fd *ast.FuncDecl) map[string]string {
+		r := recvObj(c, fd)
+		out := map[string]string{}
+		for _, ret := range returnsOf(fd.Body) {
+			if len(ret.Results) != 1 {
+				return nil
+			}
+			e := unparen(ret.Results[0])
+			if u, ok := e.(*ast.UnaryExpr); ok && u.Op == token.AND {
+				e = unparen(u.X)
+			}
+			cl, ok := e.(*ast.CompositeLit)
+			if !ok {
+				return nil
+			}
+			for _, el := range cl.Elts {
+				kv, ok := el.(*ast.KeyValueExpr)
+				if !ok {
+					return nil
+				}
+				if se, ok := unparen(kv.Value).(*ast.SelectorExpr); ok && c.objOf(se.X) == r {
+					out[src(kv.Key)] = se.Sel.Name
+				}
+			}
+		}
+		if len(out) == 0 {
+			return nil
+		}
+		return out
+	}
+	// restorer: a method with one parameter that assigns receiver fields from that parameter's fields (field -> saved key)
+	restoreOf := func(fd *ast.FuncDecl) map[string]string {
+		r := recvObj(c, fd)
+		if fd.Type.Params == nil || len(fd.Type.Params.List) != 1 || len(fd.Type.Params.List[0].Names) != 1 {
+			return nil
+		}
+		p := c.objOf(fd.Type.Params.List[0].Names[0])
+		out := map[string]string{}
+		inspectNoLit(fd.Body, func(x ast.Node) bool {
+			as, ok := x.(*ast.AssignStmt)
+			if !ok || len(as.Lhs) != len(as.Rhs) {
+				return true
+			}
+			for i, l := range as.Lhs {
+				ls, lok := unparen(l).(*ast.SelectorExpr)
+				rs, rok := unparen(as.Rhs[i]).(*ast.SelectorExpr)
+				if lok && rok && c.objOf(ls.X) == r && c.objOf(rs.X) == p {
+					out[ls.Sel.Name] = rs.Sel.Name
+				}
+			}
+			return true
+		})
+		if len(out) == 0 {
+			return nil
+		}
+		return out
+	}
+	g := c.buildCFG(c0.Body)
+	var saveCall, restoreCall *ast.CallExpr
+	var runNode ast.Node
+	var snap, rest map[string]string
+	written := c.fieldsAssigned(c0.Body, recv)
+	var runner *ast.FuncDecl
+	for _, call := range c.calls(c0.Body) {
+		if ce := call; c.calleeObj(ce) == nil {
+			if se, ok := ce.Fun.(*ast.SelectorExpr); ok && se.Sel.Name == "interp" && c.objOf(se.X) == recv && runNode == nil {
+				runNode = ce
+			}
+			continue
+		}
+		md := vmMethod(call)
+		if md == nil {
+			continue
+		}
+		switch {
+		case runsInterp(md.Body, recvObj(c, md)) && runNode == nil:
+			runNode, runner = call, md
+		case snapshotOf(md) != nil && saveCall == nil:
+			saveCall, snap = call, snapshotOf(md)
+		case restoreOf(md) != nil && restoreCall == nil:
+			restoreCall, rest = call, restoreOf(md)
+		}
+	}
+	if runner != nil {
+		for f := range c.fieldsAssigned(runner.Body, recvObj(c, runner)) {
+			written[f] = true
+		}
+	}
+	if runNode == nil || saveCall == nil || restoreCall == nil {
+		c.R.Bad("vm.VM.call0", "snapshot; run; restore(snapshot)", c0.Pos(), "call0 does not take a snapshot of the receiver, start a nested interpreter run and restore from the snapshot (found: snapshot=%v run=%v restore=%v)", saveCall != nil, runNode != nil, restoreCall != nil)
+		return
+	}
+	for _, f := range sortedStr(written) {
+		ok := false
+		for k, from := range snap {
+			if from == f && rest[f] == k {
+				ok = true
+			}
+		}
+		c.R.Check(ok, "vm.VM.doCall0", "field "+f+" saved and restored", c0.Pos(), "copied into the snapshot and written back from the same snapshot field", "the thunk call overwrites v."+f+" but the snapshot / restore do not both cover it: after a thunk returns the enclosing code runs on the thunk's state")
+	}
+	okOrder := g.dominates(saveCall, runNode) && g.dominates(runNode, restoreCall)
+	// no receiver field is overwritten in call0 before the snapshot is taken
+	inspectNoLit(c0.Body, func(x ast.Node) bool {
+		if as, ok := x.(*ast.AssignStmt); ok {
+			for _, l := range as.Lhs {
+				if se, ok := unparen(l).(*ast.SelectorExpr); ok && c.objOf(se.X) == recv && !g.dominates(saveCall, as) {
+					okOrder = false
 				}
 			}
 		}
 		return true
 	})
-	for _, f := range sortedStr(assigned) {
-		c.R.Check(saved[f] && restored[f], "vm.VM.doCall0", "field "+f+" saved and restored", do.Pos(),
-			"save() copies it and reset() writes it back", "doCall0 overwrites v."+f+" but save/reset do not both cover it: after a thunk returns the enclosing code runs on the thunk's state")
+	if okOrder && len(restoreCall.Args) == 1 {
+		okOrder = rootIsCallResult(c, c0.Body, restoreCall.Args[0], saveCall)
 	}
-	// reset must restore from its parameter, each field from the same-named field
-	okReset := true
-	inspectNoLit(rs.Body, func(x ast.Node) bool {
-		if as, ok := x.(*ast.AssignStmt); ok && len(as.Lhs) == 1 && len(as.Rhs) == 1 {
-			l, lok := as.Lhs[0].(*ast.SelectorExpr)
-			r, rok := as.Rhs[0].(*ast.SelectorExpr)
-			if lok && rok && l.Sel.Name != r.Sel.Name {
-				okReset = false
-			}
-		}
-		return true
-	})
-	c.R.Check(okReset, "vm.VM.reset", "restores like-named fields", rs.Pos(), "v.f = save.f for every f", "reset assigns a field from a differently named saved field")
-	// call0 order
-	g := c.buildCFG(c0.Body)
-	s := c.callsTo(c0.Body, "vm.VM.save")
-	d := c.callsTo(c0.Body, "vm.VM.doCall0")
-	r := c.callsTo(c0.Body, "vm.VM.reset")
-	okOrder := len(s) == 1 && len(d) == 1 && len(r) == 1 && g.dominates(s[0], d[0]) && g.dominates(d[0], r[0])
-	if okOrder && len(r[0].Args) == 1 {
-		// reset receives what save returned
-		okOrder = rootIsCallResult(c, c0.Body, r[0].Args[0], s[0])
-	}
-	c.R.Check(okOrder, "vm.VM.call0", "save; doCall0; reset(saved)", c0.Pos(), "state saved before and restored after the thunk body", "call0 does not bracket doCall0 with save()/reset(saved)")
+	c.R.Check(okOrder, "vm.VM.call0", "save; doCall0; reset(saved)", c0.Pos(), "state saved before and restored after the thunk body", "call0 does not bracket the nested run with snapshot / restore(snapshot)")
 }
 
 func rootIsCallResult(c *Ctx, body ast.Node, e ast.Expr, call *ast.CallExpr) bool {
